@@ -542,6 +542,41 @@ func c14chain(rec *mon.Recorder, r *mon.Rand, k c14key, idx int) {
 }
 
 func c14ed(rec *mon.Recorder, r *mon.Rand, priv ed25519.PrivateKey, idx int) {
+	// the caller's memory around the key material: d handed over as a slice with spare capacity (the first
+	// half of a larger buffer); converting the Key back must neither write into that buffer nor hand out a
+	// key that shares memory with it
+	{
+		buf := make([]byte, 96)
+		copy(buf, priv.Seed())
+		for i := 32; i < 96; i++ {
+			buf[i] = 0xEE
+		}
+		pub := append([]byte{}, priv.Public().(ed25519.PublicKey)...)
+		in0 := map[string]any{"family": "ed25519 d with spare capacity", "seed": fmt.Sprintf("%x", priv.Seed())}
+		if ck, err := cose.NewKeyOKP(cose.AlgorithmEdDSA, pub, buf[:32]); err == nil {
+			var got any
+			var perr error
+			if !guard(rec, "Key.PrivateKey(d with spare capacity)", in0, func() { got, perr = ck.PrivateKey() }) && perr == nil {
+				rec.Event("ed25519-spare-capacity")
+				for i := 32; i < 96; i++ {
+					if buf[i] != 0xEE {
+						rec.Violate("chain:private-key-conversion-wrote-into-caller-memory", "ed25519", fmt.Sprintf("PrivateKey() changed byte %d of the buffer the caller's d is a prefix of", i), in0)
+						break
+					}
+				}
+				if pk, ok := got.(ed25519.PrivateKey); ok && len(pk) == 64 {
+					before := append([]byte{}, pk...)
+					for i := range buf {
+						buf[i] = 0x55 // the caller wipes / re-uses its buffer
+					}
+					if !eqBytes(pk, before) {
+						rec.Violate("chain:private-key-aliases-caller-memory", "ed25519", "the private key returned by PrivateKey() changed when the caller overwrote the buffer its d came from", in0)
+					}
+					copy(buf, priv.Seed())
+				}
+			}
+		}
+	}
 	// Ed25519 is deterministic: a signer obtained through COSE_Key signs without any entropy source
 	if ck, err := cose.NewKeyFromPrivate(priv); err == nil {
 		if sg, err := ck.Signer(); err == nil {
